@@ -321,7 +321,17 @@ theorem C01_encodeUrl_userinfo_wf (e : Env) (s : Str) (hs : PyStr s) (u : Url) (
     exact ⟨fun x hx => (by cases hx), fun x hx => (by cases hx)⟩
   · obtain ⟨k1, k2⟩ := splitNetloc_pyStr e.o pp.netloc h1 np hnp
     rw [hu, hw]
-    exact ⟨requoteOpt_outLang e _ k1, requoteOpt_outLang e _ k2⟩
+    exact ⟨fun x hx => requoteOpt_outLang e _ k1 x (orNoneBind_some.mp hx).1, requoteOpt_outLang e _ k2⟩
+
+/-- since commit 2fdb38c (`(REQUOTER(username) or None)`) the user cached by the constructor is never the
+    empty string — no hypothesis on the input needed -/
+theorem C01_encodeUrl_user_nonempty (e : Env) (s : Str) (u : Url) (p : NetPre) :
+    encodeUrl e s = .ok u → u.pre = some p → p.rawUser ≠ some [] := by
+  intro h hpre
+  obtain ⟨pp, netloc, _, _, _, _, hpr⟩ := encodeUrl_shape e s u h
+  rcases hpr p hpre with ⟨hu, _⟩ | ⟨np, _, hu, _⟩
+  · rw [hu]; exact fun h => (by cases h)
+  · rw [hu]; exact orNoneBind_ne_nil
 
 /-! ### modifiers -/
 
